@@ -529,7 +529,8 @@ structure ImportView where
   internalHint : Nat
   deriving DecidableEq, Repr, Inhabited
 
-def importView (k : KeystoreJ) (netCoin : Nat) : Except ImpErr ImportView :=
+/-- ImportKeystore up to and including `masterPrivKey.Unmarshal`: coin / account checks, hex, parameter length -/
+def importParams (k : KeystoreJ) (netCoin : Nat) : Except ImpErr Params :=
   if k.coin ≠ netCoin then .error .coinType
   else if k.account ≠ MW.Gen.Keystore.walletUsage then .error .acctType
   else
@@ -538,13 +539,19 @@ def importView (k : KeystoreJ) (netCoin : Nat) : Except ImpErr ImportView :=
     | some pp =>
       match unmarshal pp with
       | .error _ => .error .malformed
-      | .ok params =>
-        match hexDec k.cryptoKeyEntropyEnc, hexDec k.entropyEnc with
-        | some ce, some ee =>
-          if k.version ≠ 0 then .error .version
-          else .ok { params := params, cEntEnc := ce, entEnc := ee, version := k.version, remarks := k.remarks,
-                     account := k.account, externalHint := if k.externalChildNum = 0 then 1 else k.externalChildNum,
-                     internalHint := k.internalChildNum }
-        | _, _ => .error .hex
+      | .ok params => .ok params
+
+/-- … and the rest of the decoding (DeriveKey and the two decryptions sit in between: C05's model) -/
+def importView (k : KeystoreJ) (netCoin : Nat) : Except ImpErr ImportView :=
+  match importParams k netCoin with
+  | .error e => .error e
+  | .ok params =>
+    match hexDec k.cryptoKeyEntropyEnc, hexDec k.entropyEnc with
+    | some ce, some ee =>
+      if k.version ≠ 0 then .error .version
+      else .ok { params := params, cEntEnc := ce, entEnc := ee, version := k.version, remarks := k.remarks,
+                 account := k.account, externalHint := if k.externalChildNum = 0 then 1 else k.externalChildNum,
+                 internalHint := k.internalChildNum }
+    | _, _ => .error .hex
 
 end MW.Model.KsCodec
